@@ -330,6 +330,7 @@ def _dumps_xml(data, **kwargs):
         data_tag = ET.SubElement(segment, "data")
 
         for el in data:
+            el = el.copy(form="cartesian")
             statevector = ET.SubElement(data_tag, "stateVector")
             epoch = ET.SubElement(statevector, "EPOCH")
             epoch.text = el.date.strftime(DATE_FMT_DEFAULT)
